@@ -52,8 +52,9 @@ fn menu() -> Vec<Inst> {
         Inst { name: "ends-inside-math-mrow", p: leak(Cfg::with(vec![obs("*")]).strict(false)), chunks: ch(&["<math><mrow><mi>x</mi>", "<mn>1"]) },
         Inst { name: "html-mi-after-foreign", p: leak(Cfg::with(all.clone()).strict(false)), chunks: ch(&["<p>x</mi><![CDATA[y]]><a/>", "z</mn><b/>"]) },
         // the same non-ASCII attribute name looked up / set in documents of different encodings
-        Inst { name: "attr-lookup-utf8", p: leak(Cfg::with(vec![HSpec::with_ops(HKind::Element, "*", vec![Op::GetAttr("\u{416}".into()), Op::SetAttr("\u{416}".into(), "1".into()), Op::RemoveAttr("\u{44f}".into())])]).strict(false)), chunks: ch(&["<a \u{416}=x \u{44f}=y>", "<b>"]) },
-        Inst { name: "attr-lookup-1251", p: leak(Cfg::with(vec![HSpec::with_ops(HKind::Element, "*", vec![Op::GetAttr("\u{416}".into()), Op::SetAttr("\u{416}".into(), "1".into()), Op::RemoveAttr("\u{44f}".into())])]).strict(false).enc("windows-1251")), chunks: vec![vec![b'<', b'a', b' ', 0xC6, b'=', b'x', b' ', 0xFF, b'=', b'y', b'>'], b"<b>".to_vec()] },
+        // (each handler's last request names the attribute the next rewriter asks for first)
+        Inst { name: "attr-lookup-utf8", p: leak(Cfg::with(vec![HSpec::with_ops(HKind::Element, "*", vec![Op::GetAttr("\u{416}".into()), Op::RemoveAttr("\u{44f}".into()), Op::SetAttr("\u{416}".into(), "1".into())])]).strict(false)), chunks: ch(&["<a \u{416}=x \u{44f}=y>", "<b>"]) },
+        Inst { name: "attr-lookup-1251", p: leak(Cfg::with(vec![HSpec::with_ops(HKind::Element, "*", vec![Op::GetAttr("\u{416}".into()), Op::RemoveAttr("\u{44f}".into()), Op::SetAttr("\u{416}".into(), "1".into())])]).strict(false).enc("windows-1251")), chunks: vec![vec![b'<', b'a', b' ', 0xC6, b'=', b'x', b' ', 0xFF, b'=', b'y', b'>'], b"<b>".to_vec()] },
         Inst { name: "attr-lookup-1252", p: leak(Cfg::with(vec![HSpec::with_ops(HKind::Element, "*", vec![Op::GetAttr("\u{416}".into()), Op::SetAttr("\u{416}".into(), "1".into())])]).strict(false).enc("windows-1252")), chunks: ch(&["<a k=x>", "<b>"]) },
         Inst { name: "html-title-after-foreign", p: leak(Cfg::with(all.clone()).strict(false)), chunks: ch(&["<title>t</title><![CDATA[x]]><a/>y", "</desc><b/>z</foreignObject><i/>"]) },
         Inst { name: "math-ends-inside", p: leak(Cfg::with(vec![obs("*")]).strict(false)), chunks: ch(&["<math><mi>x</mi><annotation-xml encoding=\"text/html\"><p>", "y"]) },
